@@ -61,7 +61,8 @@ def make(i, base_seed, tier):
         # routed only for single-frame messages: fragmented + routed is the known finding KF-C05-frag-routed
         return {"seed": seed, "kind": "air", "routed": (j % per) % 2 == 1 and ln <= 24, "faults": [],
                 "msgs": [{"len": ln, "type": rng.choice([0, 1, 65, 127, rng.randint(0, 127)]), "seed": rng.getrandbits(20),
-                          "fid": rng.choice([0, 1, 0xFFFE, 0xFFFF, rng.getrandbits(16)]), "strtype": rng.random() < 0.1}]}
+                          "fid": rng.choice([0, 1, 0xFFFE, 0xFFFF, rng.getrandbits(16)]), "strtype": rng.random() < 0.1}],
+                "toggle": rng.random() < 0.3}
     # fragment abort: all attempts of fragment k lost
     nfr = rng.randint(2, 6)
     k = rng.randrange(nfr)
@@ -205,6 +206,10 @@ def _run(scn, w, net, res):
         mark = len(net.nodes[dst_key].log)
 
         def do(node, m=m, data=data):
+            if scn.get("toggle"):
+                # history dimension: fragmentation was switched off and on again before this message
+                node.fragmentation = False
+                node.fragmentation = True
             h = RF24NetworkHeader(dst, chr(typ) if m.get("strtype") and 32 <= typ < 127 else typ)
             h.frame_id = m["fid"]
             f = RF24NetworkFrame(h, data)
